@@ -3,14 +3,17 @@
 use ec_core::operator::selector::lexicase::Lexicase;
 use ec_core::operator::selector::Selector;
 use ec_core::test_results::{Error as ErrRes, Score, TestResults};
+use proptest::prelude::*;
 use rand::rngs::StdRng;
 use rand::SeedableRng;
+use serde::{Deserialize, Serialize};
 use serde_json::{json, Value};
 
 use crate::props::c06::population;
 use crate::selharness::{Pop, Res};
 use crate::stats::{run_jobs, Job, Stat};
-use crate::{guarded, panic_key, splitmix, Ctx, Fail};
+use crate::rngs::ScriptRng;
+use crate::{guarded, panic_key, splitmix, Ctx, Fail, Probe};
 
 /// All permutations of 0..c (c <= 6).
 fn permutations(c: usize) -> Vec<Vec<usize>> {
@@ -359,19 +362,177 @@ fn jobs(seed: u64, n_matrices: u64, n_large: u64, n_many: u64) -> (Vec<Job>, Vec
     (jobs, descr, n_discriminating, n_partial)
 }
 
+// ---------------------------------------------------------------- per-draw support under generated random streams
+
+/// One selector value, a generated random stream (with extreme words), a few draws: every winner must be
+/// *possible*, i.e. survive the filtering under at least one order of the considered cases.
+#[derive(Clone, Debug, Serialize, Deserialize)]
+pub struct DrawCase {
+    /// rectangular: one row of per-case results per individual
+    pub matrix: Vec<Vec<i64>>,
+    pub errors: bool,
+    /// configured number of cases (<= number of results)
+    pub configured: usize,
+    /// per-case results are groups (TestResults) ordered by their total
+    pub grouped: bool,
+    pub script: Vec<u64>,
+    pub draws: u8,
+    /// another population (same number of results) the same selector value selects from before every judged draw
+    pub other: Option<Vec<Vec<i64>>>,
+}
+
+/// individuals that survive under some order of some admissible set of considered cases
+fn support(matrix: &[Vec<i64>], errors: bool, c: usize) -> Vec<bool> {
+    let m = matrix.first().map_or(0, Vec::len);
+    let mut ok = vec![false; matrix.len()];
+    let perms = permutations(c);
+    for sub in subsets_of(m, c) {
+        for p in &perms {
+            let order: Vec<usize> = p.iter().map(|i| sub[*i]).collect();
+            for i in filter(matrix, errors, &order) {
+                ok[i] = true;
+            }
+        }
+        if ok.iter().all(|b| *b) {
+            break;
+        }
+    }
+    ok
+}
+
+fn draws_on<R: Res>(pop: &Pop<R>, other: Option<&Pop<R>>, c: &DrawCase, probe: &mut Probe) -> Result<(), Fail> {
+    let lex = Lexicase::new(c.configured);
+    let mut rng = ScriptRng::new(&c.script, 0xC08);
+    let sup = support(&c.matrix, c.errors, c.configured);
+    let what = || format!("Lexicase::new({}) on {:?} ({})", c.configured, c.matrix, if c.errors { "errors" } else { "scores" });
+    for d in 0..c.draws.max(1) {
+        if let Some(o) = other {
+            // whatever the selector value (or its thread) keeps from this call must not leak into the judged one
+            let r = guarded(|| lex.select(o, &mut rng).map(|w| std::ptr::from_ref(w)).map_err(|e| e.to_string()));
+            match r {
+                Err(p) => return Err(Fail::new(format!("Lexicase/panic:{}", panic_key(&p)), format!("selection from the other population panicked: {p}"))),
+                Ok(Ok(ptr)) if !o.iter().any(|i| std::ptr::eq(i, ptr)) => {
+                    return Err(Fail::new("Lexicase/not-a-member", format!("{}: the winner on the other population is not one of its elements", what())));
+                }
+                Ok(Err(e)) if !o.is_empty() => return Err(Fail::new("Lexicase/spurious-error", format!("{}: selection from the other population ({} individuals): {e}", what(), o.len()))),
+                _ => {}
+            }
+        }
+        let r = guarded(|| lex.select(pop, &mut rng).map(|w| (w.genome, std::ptr::from_ref(w))).map_err(|e| e.to_string()));
+        match r {
+            Err(p) => return Err(Fail::new(format!("Lexicase/panic:{}", panic_key(&p)), format!("{}: draw {d} panicked: {p}", what()))),
+            Ok(Err(e)) => {
+                if !pop.is_empty() {
+                    return Err(Fail::new("Lexicase/spurious-error", format!("{}: draw {d}: {e}", what())));
+                }
+            }
+            Ok(Ok((id, ptr))) => {
+                if !pop.iter().any(|i| std::ptr::eq(i, ptr)) {
+                    return Err(Fail::new("Lexicase/not-a-member", format!("{}: draw {d}: the winner is not an element of the population", what())));
+                }
+                let id = id as usize;
+                if !sup.get(id).copied().unwrap_or(false) {
+                    let dom = c.configured == c.matrix.first().map_or(0, Vec::len) && dominated(&c.matrix, c.errors, id);
+                    return Err(Fail::new(
+                        if dom { "Lexicase/dominated-winner" } else { "Lexicase/impossible-winner" },
+                        format!("{}: draw {d} returned individual {id}, which {}", what(), if dom { "is Pareto-dominated" } else { "survives under no order of the considered cases" }),
+                    ));
+                }
+            }
+        }
+    }
+    let impossible = sup.iter().filter(|b| !**b).count();
+    probe.nontrivial = c.matrix.len() >= 3 && c.configured >= 2 && impossible >= 1;
+    if impossible >= 1 {
+        probe.label("some individual can never win");
+    }
+    if c.configured < c.matrix.first().map_or(0, Vec::len) {
+        probe.label("fewer configured cases than results");
+    }
+    if c.grouped {
+        probe.label("grouped per-case results");
+    }
+    if other.is_some() {
+        probe.label("selector value also used on another population");
+    }
+    if c.matrix.is_empty() {
+        probe.label("empty population");
+    }
+    Ok(())
+}
+
+pub fn draw_oracle(c: &DrawCase, probe: &mut Probe) -> Result<(), Fail> {
+    let m = c.matrix.first().map_or(0, Vec::len);
+    if c.matrix.iter().any(|r| r.len() != m) || c.configured > m || m > 6 || c.other.as_ref().is_some_and(|o| o.iter().any(|r| r.len() != m)) {
+        return Ok(()); // outside the domain of this sub-check (C06 covers ragged results and larger counts)
+    }
+    match (c.grouped, c.errors) {
+        (true, true) => draws_on(&grouped_population::<ErrRes<i64>>(&c.matrix), c.other.as_ref().map(|o| grouped_population::<ErrRes<i64>>(o)).as_ref(), c, probe),
+        (true, false) => draws_on(&grouped_population::<Score<i64>>(&c.matrix), c.other.as_ref().map(|o| grouped_population::<Score<i64>>(o)).as_ref(), c, probe),
+        (false, true) => {
+            let mk = |mx: &Vec<Vec<i64>>| population::<ErrRes<i64>>(mx, |r| ErrRes(r.iter().sum()));
+            draws_on(&mk(&c.matrix), c.other.as_ref().map(mk).as_ref(), c, probe)
+        }
+        (false, false) => {
+            let mk = |mx: &Vec<Vec<i64>>| population::<Score<i64>>(mx, |r| Score(r.iter().sum()));
+            draws_on(&mk(&c.matrix), c.other.as_ref().map(mk).as_ref(), c, probe)
+        }
+    }
+}
+
+pub fn draw_strategy() -> BoxedStrategy<DrawCase> {
+    let rows = |n: std::ops::RangeInclusive<usize>, m: usize, mode: u8| {
+        let val = match mode % 4 {
+            0 => (0i64..=1).boxed(),
+            1 => (0i64..=3).boxed(),
+            2 => prop_oneof![4 => 0i64..=3, 1 => any::<i32>().prop_map(i64::from), 1 => prop::sample::select(vec![i64::from(i32::MIN), -1, 1_000_000_007, i64::from(i32::MAX)])].boxed(),
+            _ => Just(2i64).boxed(),
+        };
+        prop::collection::vec(prop::collection::vec(val, m), n)
+    };
+    (0usize..=5, any::<u8>())
+        .prop_flat_map(move |(m, mode)| {
+            (
+                rows(0..=10, m, mode),
+                any::<bool>(),
+                prop_oneof![3 => Just(m), 2 => 0usize..=m],
+                any::<bool>(),
+                crate::rngs::script_strategy(24),
+                1u8..5,
+                prop_oneof![2 => Just(None), 1 => rows(0..=14, m, mode / 4).prop_map(Some)],
+            )
+        })
+        .prop_map(|(mut matrix, errors, configured, grouped, script, draws, other)| {
+            // groups of exact copies: survivors that can only be separated by the final uniform choice
+            if matrix.len() >= 4 && matrix[0].iter().sum::<i64>() % 2 == 0 {
+                matrix[3] = matrix[0].clone();
+            }
+            DrawCase { matrix, errors, configured, grouped, script, draws, other }
+        })
+        .boxed()
+}
+
 pub fn run(ctx: &mut Ctx) {
     let (n_matrices, trials) = ctx.tier.pick((400u64, 400_000u64), (8_000, 2_000_000));
     let n_large = ctx.tier.pick(12u64, 120);
     let n_many = ctx.tier.pick(36u64, 360);
-    ctx.rule = format!("{n_matrices} generated result matrices (1..8 individuals x 0..5 cases, values 0..3, specialists / heavy ties / groups of exact copies / singleton / zero cases / more cases than individuals, both polarities; in a quarter of the matrices every per-case result is a group of sub-results - the crate's TestResults as the per-case type - ordered by its total, so that equal-ranking results need not be structurally equal), plus {n_large} larger ones (12..100 individuals x 6..8 cases), and {n_many} with 33..257 cases whose law is known analytically (specialists: P(i) = own special cases / all special cases), configured case count = number of results in 3 of 5 matrices and a smaller count (0 included) otherwise; {trials} seeded draws each through the real Lexicase. Oracle: the exact law P(i) = sum over all case orders [i survives] / (|survivors| * c!) with an independent definition of 'better'; every draw: P(winner) > 0 (never dominated) exactly; frequencies by the Chernoff/KL rule. non-trivial = a (matrix, individual) statistic with 0 < p < 1");
+    ctx.rule = format!("{n_matrices} generated result matrices (1..8 individuals x 0..5 cases, values 0..3, specialists / heavy ties / groups of exact copies / singleton / zero cases / more cases than individuals, both polarities; in a quarter of the matrices every per-case result is a group of sub-results - the crate's TestResults as the per-case type - ordered by its total, so that equal-ranking results need not be structurally equal), plus {n_large} larger ones (12..100 individuals x 6..8 cases), and {n_many} with 33..257 cases whose law is known analytically (specialists: P(i) = own special cases / all special cases), configured case count = number of results in 3 of 5 matrices and a smaller count (0 included) otherwise; {trials} seeded draws each through the real Lexicase. Oracle: the exact law P(i) = sum over all case orders [i survives] / (|survivors| * c!) with an independent definition of 'better'; every draw: P(winner) > 0 (never dominated) exactly; frequencies by the Chernoff/KL rule. per_draw_support: generated matrices (0..10 individuals x 0..5 cases, ties, copies, extreme values, both polarities, plain and grouped results), configured count <= number of results, a generated random stream with extreme words, 1..4 draws from one selector value which in a third of the cases also selects from another population in between; every winner must be an element of the population that survives under at least one order of an admissible set of considered cases. non-trivial = a (matrix, individual) statistic with 0 < p < 1; for per_draw_support >= 3 individuals, >= 2 configured cases and at least one individual that can never win");
     ctx.assumptions.push("for a configured case count c smaller than the number of results the statement does not say which c cases are considered: the law of every fixed c-subset and of a uniformly random c-subset are all accepted (the observed frequencies are judged against the reading that fits them best), and a winner only has to be possible under one of them".into());
     let (jobs, descr, discriminating, partial) = jobs(ctx.seed, n_matrices, n_large, n_many);
     ctx.extra.insert("matrices_with_fewer_configured_cases_than_results".into(), json!(partial));
     ctx.extra.insert("sample_matrices".into(), json!(descr));
     ctx.extra.insert("matrices_whose_law_differs_from_no_shuffle_and_first_case_only".into(), json!(discriminating));
     run_jobs(ctx, "lexicase_laws", jobs, trials);
+    let n = ctx.tier.pick(200_000u32, 4_000_000);
+    ctx.run_prop("per_draw_support", n, draw_strategy, draw_oracle);
+    // coverage-guided search over the same strategy and oracle (thorough tier; see ptfuzz.rs)
+    crate::ptfuzz::thorough(ctx, &[("c08", 16, 1_000_000)]);
 }
 
-pub fn replay(ctx: &mut Ctx, _sub: &str, _case: &Value) {
-    run(ctx);
+pub fn replay(ctx: &mut Ctx, sub: &str, case: &Value) {
+    if sub == "per_draw_support" {
+        ctx.replay_case::<DrawCase, _>(sub, case, draw_oracle);
+    } else {
+        run(ctx);
+    }
 }
